@@ -287,6 +287,8 @@ def gen_config(rng):
                 e["bank_codes"] = [rng.choice(SHAPES[cc] + [""]) for _ in range(rng.randrange(0, 4))]
                 if rng.random() < 0.5:
                     e["primary"] = rng.random() < 0.5
+                if rng.random() < 0.25:
+                    e["bank_code"] = rng.choice(SHAPES[cc])      # left-over field named like the expansion target
             else:
                 e["bank_code"] = rng.choice(SHAPES[cc] + [""])
                 e["primary"] = rng.random() < 0.5
